@@ -42,11 +42,12 @@ type c10Action struct {
 }
 
 type c10Follower struct {
-	Name         string `json:"name"`
-	JoinAt       int    `json:"join_at"`              // seconds after start
-	PingFailFrom int    `json:"ping_fail_from"`       // seconds after start from which pings fail (0 = never)
-	RebalErrors  int    `json:"rebal_errors"`         // the first n Rebalance calls return an error
-	RestartAt    int    `json:"restart_at,omitempty"` // seconds after start at which the follower's process is replaced: the old connection is dead from then on, the new process registers under the same name
+	Name          string `json:"name"`
+	JoinAt        int    `json:"join_at"`                   // seconds after start
+	PingFailFrom  int    `json:"ping_fail_from"`            // seconds after start from which pings fail (0 = never)
+	RebalErrors   int    `json:"rebal_errors"`              // the first n Rebalance calls return an error
+	RestartInPing bool   `json:"restart_in_ping,omitempty"` // the new process registers while the leader's heart-beat round is still waiting for the dead connection's ping to fail
+	RestartAt     int    `json:"restart_at,omitempty"`      // seconds after start at which the follower's process is replaced: the old connection is dead from then on, the new process registers under the same name
 }
 
 type c10Inst struct {
@@ -366,6 +367,8 @@ type fakeFollower struct {
 	pings    int
 	closed   bool
 	dead     bool
+	holdPing chan struct{} // a ping of the dead connection blocks here (a ping that takes its time to fail)
+	inPing   bool
 }
 
 func (f *fakeFollower) Close() error { f.mu.Lock(); f.closed = true; f.mu.Unlock(); return nil }
@@ -374,6 +377,12 @@ func (f *fakeFollower) Ping() error {
 	defer f.mu.Unlock()
 	f.pings++
 	if f.dead {
+		if h := f.holdPing; h != nil {
+			f.inPing = true
+			f.mu.Unlock()
+			<-h
+			f.mu.Lock()
+		}
 		return errors.New("connection is shut down")
 	}
 	if f.failFrom > 0 && time.Since(f.start) > time.Duration(f.failFrom)*time.Second {
@@ -449,11 +458,33 @@ func c10RunLeader(sc drv.Scenario, p *c10Params) drv.Result {
 				old := fol[f.Name]
 				old.mu.Lock()
 				old.dead = true
+				var hold chan struct{}
+				if f.RestartInPing {
+					hold = make(chan struct{})
+					old.holdPing = hold
+				}
 				old.mu.Unlock()
+				if hold != nil {
+					// wait until the leader's heart-beat round is inside the ping of the dead connection, register the new
+					// process, then let the ping fail
+					deadline := time.Now().Add(8 * time.Second)
+					for time.Now().Before(deadline) {
+						old.mu.Lock()
+						in := old.inPing
+						old.mu.Unlock()
+						if in {
+							break
+						}
+						time.Sleep(5 * time.Millisecond)
+					}
+				}
 				ff := &fakeFollower{name: f.Name, start: start}
 				fol[f.Name] = ff
 				sd.Add(servicediscovery.NewService(ff, f.Name, time.Now().UnixNano()))
 				restarted[f.Name] = true
+				if hold != nil {
+					close(hold)
+				}
 			}
 		}
 		time.Sleep(50 * time.Millisecond)
@@ -684,6 +715,7 @@ func init() {
 					for j := range p.Followers {
 						if p.Followers[j].PingFailFrom == 0 {
 							p.Followers[j].RestartAt = 3 + rng.Intn(3)
+							p.Followers[j].RestartInPing = i%2 == 1
 							break
 						}
 					}
